@@ -61,12 +61,17 @@ def props_files(prop):
     return found
 
 
-def check_props(prop, corr):
+def check_props(prop, corr, skip=()):
     """Re-check every Props/<prop>*.v with coqc (always, even when its .vo is
-    up to date) and read the Print Assumptions output."""
+    up to date) and read the Print Assumptions output.  `skip`: Props files
+    whose generated model could not be regenerated this run (their theorems
+    would be about a stale translation, so they are not counted)."""
     info = {'files': [], 'file': None, 'theorems': [], 'obligations': 0, 'discharged': 0,
-            'axioms': [], 'closed': 0, 'ok': False, 'error': None, 'forbidden': [], 'coqc_s': 0.0}
+            'axioms': [], 'closed': 0, 'ok': False, 'error': None, 'forbidden': [], 'coqc_s': 0.0,
+            'not_rechecked': []}
     paths = props_files(prop)
+    info['not_rechecked'] = [os.path.basename(p) for p in paths if os.path.basename(p) in skip]
+    paths = [p for p in paths if os.path.basename(p) not in skip]
     if not paths:
         info['error'] = 'no Props file'
         return info
@@ -144,7 +149,9 @@ def main():
     # 1. translate + build
     build = corr.build_all()
     # 2. proof obligations of this property
-    proofs = check_props(prop, corr)
+    tfail = getattr(build, 'translator_failures', {}) or {}
+    skip_props = {corr.GEN_PROPS[st][1] for st in tfail if st in corr.GEN_PROPS and corr.GEN_PROPS[st][0] == prop}
+    proofs = check_props(prop, corr, skip=skip_props)
     # 3. correspondence
     corr_results = []
     driver_ok = os.path.exists(corr.DRIVER)
@@ -223,12 +230,18 @@ def main():
             lines.append('NOTE: known finding %s no longer reproduces on its recorded example' % kf['id'])
     broken = list(crashes)
     build_note = None
+    if skip_props:
+        build_note = ('translated-model tie not available this run for %s (%s): the translator gave up on the '
+                      'current source, so the theorems "generated = hand model" were not re-checked; the hand '
+                      'model is tied by the correspondence check only'
+                      % (', '.join(sorted(skip_props)),
+                         '; '.join('%s: %s' % (k, v) for k, v in tfail.items()
+                                   if k in corr.GEN_PROPS and corr.GEN_PROPS[k][0] == prop)))
+        lines.append('NOTE: ' + build_note)
     if not build.ok:
         # Which build failures leave THIS property unfounded:
         #  - Tables.v could not be regenerated, or the model / extraction /
         #    driver did not build: model and correspondence are stale -> all;
-        #  - the tokenizer-rule translator failed closed: only the theorems
-        #    about the generated rules (Props/C19gen.v) lose their tie -> C19;
         #  - a Proofs/Props file failed: the property is affected exactly when
         #    one of its own Props files no longer compiles.  That is decided
         #    by check_props above, which re-runs coqc on each of them (the .vo
@@ -240,11 +253,10 @@ def main():
         for st in stages:
             if st in ('translate-tables', 'extraction', 'driver-build') or st is None:
                 affects = True
-            elif st == 'translate-tokrules':
-                affects = affects or prop == 'C19'
             elif st == 'coq-build':
-                if not ffiles or any(f.startswith('theories/Model/') and not f.endswith('TokGen.v')
-                                     or f.startswith('theories/Extract/') for f in ffiles):
+                if not ffiles or any(f.startswith('theories/Model/') and not f.endswith(
+                        tuple(corr.GENERATED_FILES) + ('DSL.v',))
+                        or f.startswith('theories/Extract/') for f in ffiles):
                     affects = True
             else:
                 affects = True
@@ -253,7 +265,7 @@ def main():
                            'files': ffiles,
                            'translation_error': build.translation_error, 'log': build.log[-600:]})
         else:
-            build_note = ('build failure outside this property (stages %s, files %s): every Props file of %s '
+            build_note = (build_note + ' | ' if build_note else '') + ('build failure outside this property (stages %s, files %s): every Props file of %s '
                           'was re-checked by coqc against the current tables and compiles'
                           % (stages, ffiles, prop))
     if not proofs['ok']:
